@@ -213,7 +213,16 @@ def run(tier, regenerate=True):
     chk.extra["mir_regeneration_s"] = prog.timings
     rep = Replayer("dev")
     rep.build()
-    results = par.map_entries(lambda s: run_shape(prog, s), shapes)
+    from . import c06_ops, fscheck
+    scen = c06_ops.scenarios(tier)
+    chk.bounds["operation_scenarios"] = {"count": len(scen), "initial_records_max": 2 if tier == "quick" else 3,
+                                         "operations": ["apply", "rewind (target from the commit pool or absent)", "clear", "clear then apply"],
+                                         "log_flavours": ["folder log (4-byte header)", "versioned log (6-byte header)"],
+                                         "commit_pool": 3}
+    results = par.map_entries(lambda s: run_shape(prog, s) if not isinstance(s, dict) else fscheck.explore_scenario(prog, s, c06_ops.judge),
+                              shapes + scen)
+    op_results = [r for r in results if isinstance(r, Exception) or (isinstance(r, dict) and r.get("entry", "").startswith("{"))]
+    results = [r for r in results if r not in op_results]
     blocks = {}
     for out in results:
         if isinstance(out, Exception) or out is None:
@@ -240,8 +249,10 @@ def run(tier, regenerate=True):
                 chk.inconclusive.append("not reproduced natively: %s" % desc)
     chk.functions = {kk: {"mir_blocks_executed": v} for kk, v in sorted(blocks.items())}
     rep.close()
+    fscheck.collect(chk, op_results, c06_ops.confirm)
     chk.assumptions = [
         "file-system backend only, one log per file; sqlite backend, co-resident logs and advisory locks are outside",
+        "per-operation part: the file API (sos_vfs = tokio::fs, async_fd_lock) is the vfs model of mirsym/vfs.py; writes are atomic",
         "the file is what the real encoder produces for k <= %d records behind the 4 identity bytes" % max_k,
         "single-poll executor; BinaryReader/BinaryWriter models",
     ]
